@@ -2,6 +2,8 @@
 #![allow(dead_code)]
 
 #[cfg(kani)]
+mod c07;
+#[cfg(kani)]
 mod c08;
 #[cfg(kani)]
 mod c18;
